@@ -331,24 +331,29 @@ def case_single(rec, case):
     route = "sub" if x < 0.01 else "cli" if x < 0.4 else "cmd"
     exc = None
     try:
-        try:
-            if route == "cmd":
-                from suit_generator import cmd_payload_extract
-                cmd_payload_extract.main(src, oe, name, of if with_out else None, rp if with_repl else None)
-            else:
-                argv = ["payload_extract", "--input-envelope", src, "--output-envelope", oe, f"--payload-name={name}"]
-                if with_out:
-                    argv += ["--output-payload-file", of]
-                if with_repl:
-                    argv += ["--payload-replace-path", rp]
-                if route == "cli":
-                    rc, e = drive.cli_inproc(argv)
-                    exc = None if rc == 0 else (e or RuntimeError(f"cli exit {rc}"))
+        def invoke():
+            exc = None
+            try:
+                if route == "cmd":
+                    from suit_generator import cmd_payload_extract
+                    cmd_payload_extract.main(src, oe, name, of if with_out else None, rp if with_repl else None)
                 else:
-                    rc, err = drive.cli_sub(argv, wd)
-                    exc = None if rc == 0 else RuntimeError(f"cli exit {rc}: {err[-300:]}")
-        except Exception as e:  # noqa
-            exc = e
+                    argv = ["payload_extract", "--input-envelope", src, "--output-envelope", oe, f"--payload-name={name}"]
+                    if with_out:
+                        argv += ["--output-payload-file", of]
+                    if with_repl:
+                        argv += ["--payload-replace-path", rp]
+                    if route == "cli":
+                        rc, e = drive.cli_inproc(argv)
+                        exc = None if rc == 0 else (e or RuntimeError(f"cli exit {rc}"))
+                    else:
+                        rc, err = drive.cli_sub(argv, wd)
+                        exc = None if rc == 0 else RuntimeError(f"cli exit {rc}: {err[-300:]}")
+            except Exception as e:  # noqa
+                exc = e
+            return exc
+
+        exc = faults.run(f"{rec.seed}/{ID}/extract/{case['n']}", invoke, p=0.08 if route in ("cmd", "cli") else 0)
         rec.count(f"single:out={with_out}/replace={with_repl}")
         rec.count("single:route:" + route)
         rec.case(root.bytes + f"{name}/{with_out}/{with_repl}".encode(), len(names) >= 2 or bool(root.deps),
